@@ -179,6 +179,19 @@ func (fr *Frame) callClosure(ctx *callCtx, clo *closureVal, args []Val) Val {
 	return fr.staticCall(ctx, clo.fn)
 }
 
+// closureMods: heaps a closure created in this frame's function may modify; stores through captured variables
+// are attributed to the captured cell (a local of the enclosing function) instead of the whole heap.
+func (fr *Frame) closureMods(mc *ssa.MakeClosure, depth int, mods map[string]*modInfo) {
+	fn := mc.Fn.(*ssa.Function)
+	if fr.fvBind == nil {
+		fr.fvBind = map[*ssa.Function][]ssa.Value{}
+	}
+	if mc.Parent() == fr.fn {
+		fr.fvBind[fn] = mc.Bindings
+	}
+	fr.modsOf(fn, nil, depth, mods, false)
+}
+
 func typeKeyFull(t types.Type) string {
 	return types.TypeString(t, func(p *types.Package) string { return p.Path() })
 }
@@ -540,7 +553,7 @@ func (e *Engine) callMods(fr *Frame, fn *ssa.Function, x ssa.CallInstruction, de
 			// modelled iteration (Walk): only the callback writes
 			for _, a := range cc.Args {
 				if mc, ok := a.(*ssa.MakeClosure); ok {
-					fr.modsOf(mc.Fn.(*ssa.Function), nil, depth+1, mods, false)
+					fr.closureMods(mc, depth+1, mods)
 					for _, b := range mc.Bindings {
 						addType(b.Type())
 					}
@@ -560,7 +573,7 @@ func (e *Engine) callMods(fr *Frame, fn *ssa.Function, x ssa.CallInstruction, de
 		if readOnlyStoreOp(name) {
 			for _, a := range cc.Args {
 				if mc, ok := a.(*ssa.MakeClosure); ok {
-					fr.modsOf(mc.Fn.(*ssa.Function), nil, depth+1, mods, false)
+					fr.closureMods(mc, depth+1, mods)
 					for _, b := range mc.Bindings {
 						addType(b.Type())
 					}
@@ -591,7 +604,7 @@ func (e *Engine) callMods(fr *Frame, fn *ssa.Function, x ssa.CallInstruction, de
 				addAll(g.name + "_d")
 			}
 			if mc, ok := a.(*ssa.MakeClosure); ok {
-				fr.modsOf(mc.Fn.(*ssa.Function), nil, depth+1, mods, false)
+				fr.closureMods(mc, depth+1, mods)
 				for _, b := range mc.Bindings {
 					addType(b.Type())
 				}
@@ -625,7 +638,7 @@ func (e *Engine) callMods(fr *Frame, fn *ssa.Function, x ssa.CallInstruction, de
 				}
 				for _, a := range cc.Args {
 					if mc, ok := a.(*ssa.MakeClosure); ok {
-						fr.modsOf(mc.Fn.(*ssa.Function), nil, depth+1, mods, false)
+						fr.closureMods(mc, depth+1, mods)
 					}
 				}
 				return
@@ -661,7 +674,7 @@ func (e *Engine) callMods(fr *Frame, fn *ssa.Function, x ssa.CallInstruction, de
 	}
 	// closure or dynamic
 	if mc, ok := cc.Value.(*ssa.MakeClosure); ok {
-		fr.modsOf(mc.Fn.(*ssa.Function), nil, depth+1, mods, false)
+		fr.closureMods(mc, depth+1, mods)
 		return
 	}
 	if own {
